@@ -105,5 +105,7 @@ def generate(module, cfg, family, tier, seed, parts=16, timeout=3600, extra_env=
              'module': module, 'family': family}
     if use_cache:
         os.makedirs(CACHE, exist_ok=True)
-        json.dump({'records': records, 'stats': stats}, open(cf, 'w'))
+        # (atomic: several checks may run side by side -- seedtool regress)
+        with open(cf + '.%d.tmp' % os.getpid(), 'w') as f_: json.dump({'records': records, 'stats': stats}, f_)
+        os.replace(cf + '.%d.tmp' % os.getpid(), cf)
     return records, stats
